@@ -272,6 +272,7 @@ func runEvalCase(c Case) (Result, string) {
 	}
 	r.Compile = "ok"
 	str0 := e.String()
+	tree0 := rootWire(e)
 	root0 := ""
 	if n, err := jparse.Parse(c.Expr); err == nil {
 		root0 = astWire(n)
@@ -342,6 +343,11 @@ func runEvalCase(c Case) (Result, string) {
 			r.Direct["string_same"] = "String() changed: " + e.String()
 		} else {
 			r.Direct["string_same"] = "ok"
+		}
+		if rootWire(e) != tree0 {
+			r.Direct["tree_same"] = "the expression's tree changed during evaluation"
+		} else {
+			r.Direct["tree_same"] = "ok"
 		}
 	}
 	// C10: EvalBytes agrees with Eval
